@@ -102,10 +102,6 @@ def check_C09(tier, only):
 
 def check_C08(tier, only):
     jobs = es.jobs_C08(tier, seed())
-    if tier == 'quick':
-        for j in jobs:
-            if j[0].startswith('fun_vs_eos') or j[0].startswith('vrq_fh0'):
-                j[2]['budget_s'] = 45   # outside the prover's reach (scope file): only the native comparison is made in the quick tier
     return run_es('C08', tier, jobs, only,
                   ['pairs decided: generic containers (ResidualModel enum, EquationOfState wrapper) vs bare model; ePC-SAFT without ions vs PC-SAFT; homosegmented GC parameters vs combined record; '
                    'Peng-Robinson residual pressure (dual-number derivative of the code) vs textbook closed form',
